@@ -586,7 +586,10 @@ impl SessionManager {
         gauge!(names::client::CONNECTIONS, self.nb_connections);
 
         // do not be ready to accept right away, wait until we get back to 10% capacity
-        if !self.can_accept && self.nb_connections < self.max_connections * 90 / 100 {
+        // (at least one free slot counts: with max_connections = 1 the integer
+        // threshold would be 0, `nb_connections < 0` never holds and a worker that
+        // had refused one connection never accepted again)
+        if !self.can_accept && self.nb_connections < (self.max_connections * 90 / 100).max(1) {
             debug!(
                 "nb_connections = {}, max_connections = {}, starting to accept again",
                 self.nb_connections, self.max_connections
